@@ -7,6 +7,9 @@ import json
 
 class Facts:
     def __init__(self, doc):
+        from .normalize import canonicalize_generics, transparent_helpers
+        doc = canonicalize_generics(doc)
+        doc = transparent_helpers(doc)
         self.doc = doc
         self.meta = doc['meta']
         self.bodies = {}
